@@ -265,6 +265,9 @@ def mk_model(s):
         sel = {int(lab): (_leaf(a) & _leaf(b)) for lab, a, b in s["sel"]}
         return selector.RegionsSelector(("x", "y"), ("a", "b"), sel, mask, undefined_transform_value=s["undef"])
     if k == "sellmeier_glass":
+        if s.get("c_unit"):
+            # coefficients that carry their unit: the file format has no place for it - the write is refused, or the unit must survive
+            return spectroscopy.SellmeierGlass(B_coef=s["B"], C_coef=s["C"] * u.Unit(s["c_unit"]))
         return spectroscopy.SellmeierGlass(B_coef=s["B"], C_coef=s["C"])
     if k == "sellmeier_zemax":
         return spectroscopy.SellmeierZemax(temperature=s["T"], ref_temperature=s["T0"], ref_pressure=s["P0"], pressure=s["P"],
@@ -297,6 +300,7 @@ MODEL_ARGS = {"lm_array": [(0, 0), (1, 2), (2, 1)], "lm_dict": [(1.0, 5.0), (2.0
 def model_obs(m, s):
     """parameters, attributes and values on sample inputs"""
     out = {"type": type(m).__name__, "params": {p: np.asarray(getattr(m, p).value, dtype=float).tolist() for p in m.param_names},
+           "param_units": {p: (None if getattr(m, p).unit is None else str(getattr(m, p).unit)) for p in m.param_names},
            "inputs": list(m.inputs), "outputs": list(m.outputs)}
     for attr in ("atol", "no_label", "undefined_transform_value", "wrap_lon_at"):
         if hasattr(m, attr):
@@ -357,7 +361,13 @@ def mk_wcs(s):
     for st in s["steps"]:
         fr = st["frame"] if isinstance(st["frame"], str) else mk_frame(st["frame"])
         steps.append((fr, mk_tr(st["tr"]) if st.get("tr") else None))
-    w = gw.WCS(steps, name=s.get("name", ""))
+    if s.get("staged") and len(steps) >= 3 and not isinstance(steps[-1][0], str):
+        # the last frame attached afterwards with insert_frame (existing frame by name, new frame as an object)
+        w = gw.WCS(steps[:-2] + [(steps[-2][0], None)], name=s.get("name", ""))
+        prev = steps[-2][0]
+        w.insert_frame(prev if isinstance(prev, str) else prev.name, steps[-2][1], steps[-1][0])
+    else:
+        w = gw.WCS(steps, name=s.get("name", ""))
     if s.get("bbox"):
         w.bounding_box = tuple(tuple(b) for b in s["bbox"]) if len(s["bbox"]) > 1 else tuple(s["bbox"][0])
     if s.get("pixel_shape"):
@@ -376,7 +386,10 @@ def wcs_obs(w, s):
     n = w.forward_transform.n_inputs
     pts = [[3.25 + 2 * i, 7.5 - i, 1.75 + i][:n] for i in range(3)] + [[1e4] * n]
     out = {"name": w.name, "pixel_shape": list(w.pixel_shape) if w.pixel_shape is not None else None,
-           "frames": [fields(st.frame) for st in w.pipeline], "nsteps": len(w.pipeline)}
+           "frames": [fields(st.frame) for st in w.pipeline], "nsteps": len(w.pipeline),
+           # the frames as they are reached through the WCS (not only as the pipeline lists them)
+           "input_frame": fields(w.input_frame) if w.input_frame is not None else None,
+           "output_frame": fields(w.output_frame) if w.output_frame is not None else None}
     try:
         bb = w.bounding_box
         out["bbox"] = None if bb is None else [list(map(float, iv)) for iv in (bb.bounding_box() if n > 1 else [bb.bounding_box()])]
@@ -791,6 +804,8 @@ def gen_model(rng, kind=None):
             s["undef"] = "nan"
     if k == "sellmeier_glass":
         s["B"], s["C"] = [rng.uniform(0.3, 1.2) for _ in range(3)], [rng.uniform(0.003, 0.02), rng.uniform(0.01, 0.05), rng.uniform(50, 150)]
+        if rng.random() < 0.5:
+            s["c_unit"] = "um2"
     if k == "sellmeier_zemax":
         s.update(T=rng.uniform(10, 40), T0=rng.uniform(15, 25), P0=rng.choice([1.0, 0.9]), P=rng.choice([0.0, 0.5, 1.0]),
                  B=[rng.uniform(0.3, 1.2) for _ in range(3)], C=[rng.uniform(0.003, 0.02), rng.uniform(0.01, 0.05), rng.uniform(50, 150)],
@@ -875,6 +890,7 @@ def gen_wcs(rng):
         s["pixel_shape"] = [rng.randint(8, 64) for _ in range(n)]
     elif isinstance(first, str) and rng.random() < 0.6:
         s["array_shape"] = [rng.randint(8, 64) for _ in range(n)]
+    s["staged"] = rng.random() < 0.4
     return s
 
 
